@@ -6,8 +6,9 @@ from .. import cutfind
 from ..core import call_real
 
 ID = "C07"
-LEAN_MODULE = "CKT.Props.C07Conn"
-THEOREMS = ["CKT.C07." + t for t in [
+LEAN_MODULE = "CKT.Props.C07Spec"
+THEOREMS = ["CKT.C08Wire.optimize_result_is_planW", "CKT.C08Wire.child_linkW", "CKT.C08Wire.goal_feasibleW"] + ["CKT.C07." + t for t in [
+    "returned_cuts_feasible",
     "find_idx", "step_accounting", "path_accounting", "reachable_gamma", "multiqubitGates_idx_nodup", "export_overhead",
     "init_inv", "merge_inv", "newWire_inv", "step_inv", "path_inv", "reachable_width", "export_nonmarkers", "export_cuts_spec",
     "init_inv2", "merge_inv2'", "step_inv2", "forbidden_self", "progress_gate_cut", "greedy_some_gate_cut", "loop_ok", "passes_ok",
